@@ -14,6 +14,9 @@ func (w *World) newExec(fn *ssa.Function, c *Contract) *Exec {
 	x := &Exec{w: w, entry: fn, entryKey: fnKey(fn), contract: c, trivial: map[string]int{}, trivialMeta: map[string]*Goal{}, boundSites: map[string]bool{}, boundLoops: map[string]bool{}, ghostVars: w.ghostVars,
 		notes: map[string]bool{}, maxPaths: 4000, inlined: map[string]bool{}, usedSpecs: map[string]bool{},
 		loops: map[*ssa.Function]*loopAnalysis{}, maxDepth: 8}
+	if c != nil {
+		x.applyLocalBindings()
+	}
 	return x
 }
 
